@@ -151,6 +151,10 @@ def run(tier, replay=None):
             n = rng.choice([40, 80, 150] if thorough else [30, 60])
             seq = ['cfg' if rng.random() < 0.1 else rng.choice(classes) for _ in range(n)]
             jobs.append({'id': len(jobs), 'seq': seq, 'seed': rng.randrange(1 << 30), 'big': 0, 'pred': None})
+        # editing sessions: the same request before and after a project file changes on disk (the worker edits between API requests)
+        for _ in range(40 if thorough else 10):
+            seq = ['cfg'] + [rng.choice(['api', 'api', 'api', 'eval', 'raises']) for _ in range(8)]
+            jobs.append({'id': len(jobs), 'seq': seq, 'seed': rng.randrange(1 << 30), 'big': 0, 'pred': None})
         for _ in range(8 if thorough else 3):
             seq = ['cfg'] + [rng.choice(classes) for _ in range(10)]
             jobs.append({'id': len(jobs), 'seq': seq, 'seed': rng.randrange(1 << 30), 'big': rng.choice([1 << 20, 3 << 20, 5 << 20]), 'pred': None})
